@@ -197,6 +197,37 @@ def check_rigid(rep):
                     rep.fail('C06:nf.canonical', '%s normal form differs from that of the same diagram without the snake' % tag, r)
 
 
+def check_loops(rep):
+    """rigid diagrams over a self-adjoint wire type (PRO(1)): a cap closed by a cup on the same two wires is a loop, not a
+    snake; the normal form is reached by interchanges alone, so it keeps every box"""
+    from discopy import rigid
+    from collections import Counter
+    p = rigid.PRO(1)
+    Box, Id, Cup, Cap = rigid.Box, rigid.Id, rigid.Cup, rigid.Cap
+    a, e = Box('a', p, p), Box('e', p, rigid.PRO(0))
+    loops = [Cap(p, p) >> Cup(p, p), a @ Cap(p, p) >> a @ Cup(p, p) >> a, Cap(p, p) >> a @ Id(p) >> Cup(p, p),
+             Cap(p, p) >> Id(p) @ a >> Cup(p, p), a @ Cap(p, p) >> Id(p) @ a @ Id(p) >> a @ Cup(p, p)]
+    for d in loops:
+        r = 'loop: %r' % (d,)
+        rep.case(('rigid loop', r))
+        for left in (False, True):
+            try:
+                with common.time_limit(30):
+                    n_ = d.normal_form(left=left)
+                    again = n_.normal_form(left=left)
+            except NotImplementedError:
+                continue            # a closed loop beside a wire is disconnected
+            except Exception as e_:      # noqa
+                rep.fail('C06:rigid.no_exception', 'normal_form(left=%r) raised %r' % (left, e_), r)
+                continue
+            if (n_.dom, n_.cod) != (d.dom, d.cod):
+                rep.fail('C06:rigid.types', 'normal form has type %r -> %r' % (n_.dom, n_.cod), r)
+            elif Counter(map(repr, n_.boxes)) != Counter(map(repr, d.boxes)):
+                rep.fail('C06:rigid.same_boxes', 'the normal form of a diagram without snakes lost / gained boxes: %r' % (n_,), r)
+            elif again != n_:
+                rep.fail('C06:nf.idempotent', 'normal form of a rigid diagram with a loop is not a fixed point', r)
+
+
 def spiral(n, mirror=False):
     Ty, Box, Id = monoidal.Ty, monoidal.Box, monoidal.Id
     x = Ty('x')
@@ -308,6 +339,7 @@ def _run(tier, seed, shard, rep_box):
             check(rep, d)
     if shard[0] == 4 % shard[1]:
         check_rigid(rep)
+        check_loops(rep)
     # long connected diagrams (spirals and their mirror images): the number of interchanges grows cubically with the number of
     # boxes (4, 20, 56, 120, 220 moves for 1..5 cups), far beyond what the enumerated diagrams need
     if shard[0] == 2 % shard[1]:
